@@ -37,6 +37,16 @@ def result (f : PagerFamily) (n k : Nat) : Option (String × String) :=
 def cellOk (f : PagerFamily) (n k : Nat) : Bool :=
   result f n k == some (expected f.pages n k)
 
+/-- page 1 addressed without the page parameter (the links 2 … N all follow the pattern) -/
+def resultBare (f : PagerFamily) (n : Nat) : String × String :=
+  let d := f.docBare
+  numberPrevNext (detectParamInfo (atomsOf d) (pagerGroups f.pages n 1) d.docArg) d.strPage d.escPage
+
+def bareOk (f : PagerFamily) (n : Nat) : Bool := resultBare f n == expected f.pages n 1
+
+/-- all N with 2 ≤ N ≤ 12 -/
+def allN : List Nat := (List.range 11).map (· + 2)
+
 /-- all (N, k) with 2 ≤ N ≤ 12, 1 ≤ k ≤ N -/
 def allCells : List (Nat × Nat) :=
   (List.range 11).flatMap (fun j => (List.range (j + 2)).map (fun i => (j + 2, i + 1)))
